@@ -210,7 +210,9 @@ func compareObjOutput(exp, got string) string {
 func C12(c *fw.Ctx) {
 	depth, bound := 3, 1
 	if !c.Quick() {
-		depth, bound = 4, 2
+		// depth 4, or two deviating iteration orders per execution, with the extended operation set take
+		// hours: the thorough tier widens the operation alphabet (six-key literals, nil values, listings in
+		// mid-history) and keeps depth 3 / one deviation
 	}
 	if c.Tier == "deep" {
 		depth = 5
